@@ -57,6 +57,26 @@ def r_instruction(ids):
     return Rule("R4", "instruction ! $args", repl, why="instruction! -> constructor with opcode from instruction_constants.rs")
 
 
+def _vec_literal(b):
+    """R12: `vec![a, b, ..]` (not `vec![x; n]`) -> a block that pushes the items in order"""
+    items, cur, d = [], [], 0
+    for t in b["items"]:
+        if t in ("(", "[", "{"): d += 1
+        elif t in (")", "]", "}"): d -= 1
+        if t == ";" and d == 0:
+            return None
+        if t == "," and d == 0:
+            if cur: items.append(cur)
+            cur = []
+        else:
+            cur.append(t)
+    if cur: items.append(cur)
+    if not items:
+        return None
+    return "{ let mut verif_vec = Vec :: new ( ) ; " + " ".join("verif_vec . push ( " + text(i) + " ) ;" for i in items) + " verif_vec }"
+
+
+R12_VEC_LITERAL = Rule("R12", "vec ! [ $$items ]", _vec_literal, why="vec![a, b, ..] -> Vec::new() + pushes in order")
 R12_VEC_EMPTY = Rule("R12", "vec ! [ ]", "Vec::new()", why="vec![] -> Vec::new()")
 R12_RESERVE = Rule("R12", "$v . reserve_exact ( $$e ) ;", "", why="capacity hint dropped")
 R_CONST_LOCAL = Rule("R0", "const $n : $t = $$e ;", "let $n : $t = $$e ;", why="fn-local const -> let")
